@@ -52,7 +52,7 @@ def gen_dir(seed, tier, focus):
     W = "workload"
     cfg = {"k": ch.pick("config", "k", [1, 1, 2]), "n": ch.pick("config", "n", [2, 3]), "nservers": ch.randint("config", "ns", 3, 5),
            "knobs": {"mseg": ch.pick("config", "mseg", [64, 256, 128 * 1024])},
-           "net": {"threads": ch.pick("config", "threads", ["sync", "sync", "async"]), "lat_profile": ch.pick("config", "lat", ["uniform", "fifo", "heavy"]), "jitter": ch.pick("config", "jit", [0.0005, 0.05]), "base_lat": 0.001}}
+           "net": {"threads": ch.pick("config", "threads", ["sync", "sync", "async"]), "lat_profile": ch.pick("config", "lat", ["uniform", "fifo", "heavy"]), "jitter": ch.pick("config", "jit", [0.0005, 0.05]), "base_lat": 0.001, "batch": ch.pick("config", "batch", [0, 0, 0, 0.001, 0.02, 0.3])}}
     nops = ch.randint(W, "nops", 4, 30 if focus in ("C20", "C19") else 18)
     ops = [["mkdir", ch.pick(W, "kind0", ["sdmf", "mdmf"])]]
     OBJ = ["lit", "lit2", "chk", "ssk", "mdmf", "dir0", "dir1", "dir2", "dir0-ro", "ssk-ro", "unknown", "unknown-ro", "unknown-imm", "immdir"]
